@@ -1,6 +1,10 @@
 //! STARK-level checks: C01 completeness, C02 soundness, C03 proof integrity, C04 Fiat-Shamir
 //! transcript, C06 untrusted input, C17 composition polynomial.
 mod c01;
+mod c02;
+mod c03;
+mod c06;
+mod mutate;
 mod family;
 
 use kit::{Args, Run};
@@ -22,6 +26,21 @@ fn main() {
         "C01" => {
             let run = Run::new(args, "exploration");
             let subs = c01::subs(&run);
+            run.go(subs)
+        },
+        "C02" => {
+            let run = Run::new(args, "exploration");
+            let subs = c02::subs(&run);
+            run.go(subs)
+        },
+        "C03" => {
+            let run = Run::new(args, "exploration");
+            let subs = c03::subs(&run);
+            run.go(subs)
+        },
+        "C06" => {
+            let run = Run::new(args, "exploration");
+            let subs = c06::subs(&run);
             run.go(subs)
         },
         other => kit::engine::die(&format!("stark binary does not serve {other}")),
